@@ -816,6 +816,16 @@ func runC04(c *core.Ctx) {
 						dels = append(dels, delivery{"variable-in-object-literal", fmt.Sprintf("query Q($v: Int!) { %s(x: %s) }", field, rl), map[string]interface{}{"v": rv.JSON()}, true})
 					}
 				}
+				// a variable declared with the nullable version of the type, left unset or set to null, used where the
+				// argument type is T: ggql does not validate variable usage, so only coercion at the argument can refuse it
+				if v.K == cvNull {
+					dels = append(dels, delivery{"variable-unset-declared-nullable", fmt.Sprintf("query Q($v: %s) { %s(x: $v) }", stripNN(t), field), nil, true})
+					dels = append(dels, delivery{"variable-null-declared-nullable", fmt.Sprintf("query Q($v: %s) { %s(x: $v) }", stripNN(t), field), map[string]interface{}{"v": nil}, true})
+				}
+				// an unset variable as the null element of a list literal
+				if lt := stripNN(t); lt.K == world.TList && v.K == cvList && len(v.L) == 2 && v.L[1].K == cvNull && v.L[0].K != cvNull && v.L[0].K != cvList && v.L[0].K != cvObj {
+					dels = append(dels, delivery{"unset-variable-in-list-literal", fmt.Sprintf("query Q($v: %s) { %s(x: [%s, $v]) }", stripNN(lt.Of), field, v.L[0].Literal()), nil, true})
+				}
 				mf := mustFail(t, v)
 				for _, dl := range dels {
 					if !dl.ok {
